@@ -115,8 +115,9 @@ class Check:
         replay = None
         if self.viol:
             rc = 1
-            os.makedirs(os.path.join(VERIF, "replay"), exist_ok=True)
-            replay = os.path.join(VERIF, "replay", "%s-%s.json" % (self.pid, self.tier))
+            rdir = os.path.join(VERIF, "replay") if ir.REPO == "/repo" else os.path.join(VERIF, ".cache", "replay-scratch")
+            os.makedirs(rdir, exist_ok=True)
+            replay = os.path.join(rdir, "%s-%s.json" % (self.pid, self.tier))
             with open(replay, "w") as fh:
                 json.dump({"property": self.pid, "tier": self.tier, "violations": self.viol}, fh, indent=1, default=str)
             for v in self.viol[:40]:
@@ -164,8 +165,9 @@ class Check:
             "wall_s": round(wall, 3),
             "violations": len(self.viol),
         }
-        os.makedirs(os.path.join(VERIF, "evidence"), exist_ok=True)
-        with open(os.path.join(VERIF, "evidence", "%s.json" % self.pid), "w") as fh:
+        evdir = os.path.join(VERIF, "evidence") if ir.REPO == "/repo" else os.path.join(VERIF, ".cache", "evidence-scratch")
+        os.makedirs(evdir, exist_ok=True)
+        with open(os.path.join(evdir, "%s.json" % self.pid), "w") as fh:
             json.dump(ev, fh, indent=1, default=str)
         print("check %s tier=%s: %d units, %d functions, %d obligations (%d discharged), %d violations, %d known, "
               "%d undecided, %.1fs" % (self.pid, self.tier, len(set(self.units)), len(self.functions), self.obligations,
